@@ -3,6 +3,7 @@ package logmodel
 import (
 	"bytes"
 	"context"
+	"errors"
 	"io"
 	"log/slog"
 	"time"
@@ -70,7 +71,14 @@ type Prime struct {
 	ZoneMin int
 	DNanos  int64
 	Attrs   []Node
+	// FailWrite: the priming record goes to a destination whose Write fails (a closed file, a full disk). Whatever the
+	// handler does on that error path must not reach later records of other handlers.
+	FailWrite bool
 }
+
+type failingWriter struct{}
+
+func (failingWriter) Write([]byte) (int, error) { return 0, errors.New("destination: write failed") }
 
 func GenPrime(o GenOpts) *rapid.Generator[Prime] {
 	return rapid.Custom(func(t *rapid.T) Prime {
@@ -86,6 +94,7 @@ func GenPrime(o GenOpts) *rapid.Generator[Prime] {
 		if rapid.Bool().Draw(t, "primeAttrs") {
 			p.Attrs = GenNodes(o, 2).Draw(t, "primeAttrs")
 		}
+		p.FailWrite = rapid.IntRange(0, 2).Draw(t, "primeDestinationFails") == 0
 		return p
 	})
 }
@@ -95,7 +104,11 @@ func (p Prime) Run(base time.Time, addSource bool) {
 	if !p.Use {
 		return
 	}
-	h := NewHandler(p.Kind, io.Discard, logger.NewOptions(logger.LevelDebug, false, addSource))
+	var dst io.Writer = io.Discard
+	if p.FailWrite {
+		dst = failingWriter{}
+	}
+	h := NewHandler(p.Kind, dst, logger.NewOptions(logger.LevelDebug, false, addSource))
 	pc, _, _ := CallerPC()
 	r := slog.NewRecord(base.Add(time.Duration(p.DNanos)).In(time.FixedZone("", p.ZoneMin*60)), logger.LevelInfo, "priming record", pc)
 	r.AddAttrs(Attrs(p.Attrs)...)
